@@ -30,7 +30,8 @@ class GraphWorld:
         g = self.cw.genv
         g["Op"] = Tag("Op")
         g["config"] = self.config
-        g["flatten_iterator"] = self.flatten
+        # flatten_iterator is the repository's own generator function and is evaluated from source (self.flatten is only used by the
+        # harness to read nested results)
         g["warnings"] = Tag("warnings")
         for n in ("count_true", "fold_or", "fold_and", "alldifferent", "cond", "then"):
             g["cspuz.constraints." + n] = g[n]
